@@ -1080,6 +1080,61 @@ def rule_block_context(model):
     return r
 
 
+def rule_tag_resolution(model):
+    r = RuleResult('C06.R9', 'the parser classifies tags only through '
+                   '_parseTag, which resolves a lazily registered command '
+                   '(module, class) to its class first: a raw parseTag '
+                   'result for a tag not used before has no block '
+                   'attributes, and a valid nested block is then rejected '
+                   'with an "unexpected end tag" ParseError depending on '
+                   'what was compiled earlier in the process')
+    S = model.cls('DT_String', 'String')
+    wrapper = S.methods.get('_parseTag')
+    if wrapper is None:
+        raise AnalysisError('String._parseTag not found')
+    # it replaces a tuple-valued registry entry by what the entry names:
+    # the returned command is re-bound under the test that it is a tuple
+    resolves = False
+    for n in own_nodes(wrapper.node):
+        if isinstance(n, ast.If) and ('tuple' in norm(n.test) or
+                                      'type(' in norm(n.test)):
+            if any(isinstance(x, ast.Assign) and any(
+                    isinstance(t, ast.Name) for t in x.targets)
+                    for x in ast.walk(n)) and any(
+                    isinstance(x, ast.Call) and norm(x.func) in (
+                        'exec', '__import__', 'importlib.import_module',
+                        'import_module', 'getattr')
+                    for x in ast.walk(n)):
+                resolves = True
+    r.instance(wrapper.where, 'lazy command resolution',
+               'present' if resolves else 'MISSING')
+    if not resolves:
+        r.finding(wrapper.where, 'lazy import', '_parseTag no longer '
+                  'resolves lazily registered commands', node=wrapper.node,
+                  ctx=wrapper)
+    for fi in compile_funcs(model):
+        for n in own_nodes(fi.node):
+            if isinstance(n, ast.Call) and isinstance(
+                    n.func, ast.Attribute) and n.func.attr in (
+                        'parseTag', '_parseTag') and isinstance(
+                        n.func.value, ast.Name) and \
+                    n.func.value.id == 'self':
+                raw = n.func.attr == 'parseTag'
+                ok = not raw or fi is wrapper or (
+                    fi.name == 'parseTag')     # an override calling super
+                r.instance(fi.where, n, 'raw reader' if raw
+                           else 'resolving wrapper')
+                if not ok:
+                    r.finding(fi.where, n, 'the tag is classified with the '
+                              'raw reader: a lazily registered block tag '
+                              'that was not used before is not recognised '
+                              'as a block (valid nested blocks raise '
+                              '"unexpected end tag" depending on the '
+                              'compile history)', node=n, ctx=fi)
+    r.require_floor(4)
+    return r
+
+
 def rule_all(model):
     cg = _cg(model)
     if cg.registry.problems:
@@ -1089,7 +1144,7 @@ def rule_all(model):
     out += rule_partial(model)
     out += [rule_location(model), rule_recursion(model),
             rule_registry(model), rule_prefix_grammar(model),
-            rule_block_context(model)]
+            rule_block_context(model), rule_tag_resolution(model)]
     return out
 
 
